@@ -66,6 +66,11 @@ def oracle_fold(text, k, fb, valid):
         un = call_impl(folding.unfold, tf, index)
         if un != ('ok', [(x, 't') for x in text]):
             return 'unfold of transformed folds is not the transformed text'
+        # a transformation that maps some lines to the empty string: still one line per line
+        tf = [['' if x % 3 == 0 else 'L%d' % x for x in f] for f in folds]
+        un = call_impl(folding.unfold, tf, index)
+        if un != ('ok', ['' if x % 3 == 0 else 'L%d' % x for x in text]):
+            return 'unfold of folds with emptied lines is not the transformed text (one line per input line)'
         return None
     return chk
 
@@ -78,7 +83,7 @@ def main():
     cases = []
     # 1. boundaries and default fold for every (n, k) up to the bound, invalid k included
     for n in range(0, N + 1):
-        text = list(range(100, 100 + n))
+        text = list(range(0, n))  # distinct opaque lines; 0 is falsy on purpose
         ks = list(range(-1, n + 3)) if n <= 12 or ck.thorough else sorted(set(
             [-1, 0, 1, 2, 3, n - 1, n, n + 1, n + 2] + [ck.rng.randint(1, n) for _ in range(6)]))
         for k in ks:
@@ -105,7 +110,7 @@ def main():
     # 2. every strictly increasing boundary vector starting at 0 (valid), n <= NB
     nvalid = 0
     for n in range(1, NB + 1):
-        text = list(range(100, 100 + n))
+        text = list(range(0, n))  # distinct opaque lines; 0 is falsy on purpose
         for k in range(2, n + 1):
             for rest in itertools.combinations(range(1, n), k - 1):
                 fb = [0] + list(rest)
@@ -120,7 +125,7 @@ def main():
     nmal = 300 if ck.thorough else 120
     for _ in range(nmal):
         n = ck.rng.randint(0, 7)
-        text = list(range(100, 100 + n))
+        text = list(range(0, n))  # distinct opaque lines; 0 is falsy on purpose
         k = ck.rng.randint(0, 4)
         fb = [ck.rng.randint(0, n + 2) for _ in range(ck.rng.randint(0, 4))]
         cases.append(dict(
